@@ -36,6 +36,8 @@ pub fn gen(rng: &mut Rng, k: usize, _tier: &str) -> J {
     let v2 = match &v1 {
         Some(v) if jtag(v) == "int" && rng.chance(1, 2) => { let x = v[1].as_i64().unwrap(); Some(json!(["int", if rng.chance(1, 2) { x.saturating_add(1) } else { x.saturating_sub(1) }])) }
         Some(v) if jtag(v) == "float" && rng.chance(1, 3) => { let x = v[1].as_f64().unwrap(); Some(json!(["float", if x == 0.0 { -0.0 } else { -x }])) }
+        // the same second, another sub-second part
+        Some(v) if (jtag(v) == "datetime" || jtag(v) == "time") && rng.chance(1, 2) => { let ms = v[2].as_i64().unwrap_or(0); Some(json!([jtag(v), v[1], if ms == 250 { 500 } else { 250 }])) }
         // a struct that differs from the first one in a single field
         Some(v) if jtag(v) == "struct" && rng.chance(2, 3) => { let mut fs: Vec<J> = v[1].as_array().unwrap().clone(); let i = rng.below(fs.len() as u64) as usize; let fname = fs[i][0].clone();
             let fty = a[1].as_array().unwrap().iter().find(|f| f[0] == fname).map(|f| f[1].clone()); match fty.and_then(|t| gen_val_in(rng, &t)) { Some(nv) => { fs[i] = json!([fname, nv]); Some(json!(["struct", fs])) } None => gen_val_in(rng, &a) } }
